@@ -75,25 +75,25 @@ func verifDefaults(in map[string]interface{}) map[string]interface{} {
 		st = "dir"
 	}
 	return map[string]interface{}{
-		"Storage.StoreType":             st,
-		"API.PushEnabled":               obool(c.API.PushEnabled),
-		"API.DeleteEnabled":             obool(c.API.DeleteEnabled),
-		"API.Blob.DeleteEnabled":        obool(c.API.Blob.DeleteEnabled),
-		"API.Referrer.Enabled":          obool(c.API.Referrer.Enabled),
-		"API.Manifest.Limit":            c.API.Manifest.Limit,
-		"API.Referrer.PageCacheExpire":  int64(c.API.Referrer.PageCacheExpire),
-		"API.Referrer.PageCacheLimit":   c.API.Referrer.PageCacheLimit,
-		"API.Referrer.Limit":            c.API.Referrer.Limit,
-		"API.RateLimit":                 c.API.RateLimit,
-		"Storage.ReadOnly":              obool(c.Storage.ReadOnly),
-		"Storage.RootDir":               c.Storage.RootDir,
-		"Storage.GC.Frequency":          int64(c.Storage.GC.Frequency),
-		"Storage.GC.GracePeriod":        int64(c.Storage.GC.GracePeriod),
-		"Storage.GC.RepoUploadMax":      c.Storage.GC.RepoUploadMax,
-		"Storage.GC.Untagged":           obool(c.Storage.GC.Untagged),
-		"Storage.GC.EmptyRepo":          obool(c.Storage.GC.EmptyRepo),
-		"Storage.GC.ReferrersDangling":  obool(c.Storage.GC.ReferrersDangling),
-		"Storage.GC.ReferrersWithSubj":  obool(c.Storage.GC.ReferrersWithSubj),
-		"HTTP.Addr":                     c.HTTP.Addr,
+		"Storage.StoreType":            st,
+		"API.PushEnabled":              obool(c.API.PushEnabled),
+		"API.DeleteEnabled":            obool(c.API.DeleteEnabled),
+		"API.Blob.DeleteEnabled":       obool(c.API.Blob.DeleteEnabled),
+		"API.Referrer.Enabled":         obool(c.API.Referrer.Enabled),
+		"API.Manifest.Limit":           c.API.Manifest.Limit,
+		"API.Referrer.PageCacheExpire": int64(c.API.Referrer.PageCacheExpire),
+		"API.Referrer.PageCacheLimit":  c.API.Referrer.PageCacheLimit,
+		"API.Referrer.Limit":           c.API.Referrer.Limit,
+		"API.RateLimit":                c.API.RateLimit,
+		"Storage.ReadOnly":             obool(c.Storage.ReadOnly),
+		"Storage.RootDir":              c.Storage.RootDir,
+		"Storage.GC.Frequency":         int64(c.Storage.GC.Frequency),
+		"Storage.GC.GracePeriod":       int64(c.Storage.GC.GracePeriod),
+		"Storage.GC.RepoUploadMax":     c.Storage.GC.RepoUploadMax,
+		"Storage.GC.Untagged":          obool(c.Storage.GC.Untagged),
+		"Storage.GC.EmptyRepo":         obool(c.Storage.GC.EmptyRepo),
+		"Storage.GC.ReferrersDangling": obool(c.Storage.GC.ReferrersDangling),
+		"Storage.GC.ReferrersWithSubj": obool(c.Storage.GC.ReferrersWithSubj),
+		"HTTP.Addr":                    c.HTTP.Addr,
 	}
 }
